@@ -701,6 +701,7 @@ fn build_own(rng: &mut Rng, enc: TextEncoding, profile: usize, n_replicas: usize
     Hist { changes: all.get_changes(&[]), head_sets, priority, log: log.clone() }
 }
 
+/// (fixed probe: before bd9e88bf3 a control character could become a space and two keys merged)
 /// a map whose keys are all 32 ASCII control characters and all 95 printable ASCII characters, one
 /// character each, and a text marked with control-character mark names: the structural substitution
 /// must keep all of them apart
@@ -728,6 +729,39 @@ fn build_ctlkeys(rng: &mut Rng, enc: TextEncoding, log: &mut Vec<String>) -> His
     d.commit();
     head_sets.push(d.get_heads());
     Hist { changes: d.get_changes(&[]), head_sets, priority: vec![], log: log.clone() }
+}
+
+/// the history on which apply_changes, delivering one change at a time (as anonymize does), used to panic
+/// (repaired in 452d3e88a): a delete that removes the LOSING value of a conflicted text element
+fn build_delivery_probe(rng: &mut Rng, enc: TextEncoding, log: &mut Vec<String>) -> Hist {
+    log.push(format!("encoding {} profile one-at-a-time delivery probe", enc_name(enc)));
+    let lo = rng.below(100) as u8;
+    let mut a = AutoCommit::new_with_encoding(enc).with_actor(automerge::ActorId::from(vec![lo]));
+    let t = a.put_object(ROOT, "t", ObjType::Text).unwrap();
+    a.splice_text(&t, 0, 0, "xyz").unwrap();
+    a.commit();
+    let mut head_sets = vec![a.get_heads()];
+    let mut b = a.fork().with_actor(automerge::ActorId::from(vec![lo + 1 + rng.below(100) as u8]));
+    let (va, vb) = (*rng.pick(&["ab", "a", "\u{e9}\u{1F600}"]), *rng.pick(&["q", "", "zz"]));
+    a.put(&t, 1, va).unwrap();
+    a.commit();
+    b.put(&t, 1, vb).unwrap();
+    b.commit();
+    head_sets.push(a.get_heads());
+    head_sets.push(b.get_heads());
+    a.splice_text(&t, 1, 1, "").unwrap();
+    a.commit();
+    log.push(format!("A put(t,1,{:?}); B put(t,1,{:?}); A splice_text(t,1,1,\"\") knowing only its own value; merge", va, vb));
+    let mut priority = vec![];
+    let mut both = a.get_heads();
+    both.extend(b.get_heads());
+    both.sort();
+    priority.push(both);
+    a.merge(&mut b).unwrap();
+    a.put(ROOT, "later", 1).unwrap();
+    a.commit();
+    head_sets.push(a.get_heads());
+    Hist { changes: a.get_changes(&[]), head_sets, priority, log: log.clone() }
 }
 
 // ---------------------------------------------------------------- checks
@@ -1227,6 +1261,16 @@ pub fn run(rng: &mut Rng, tier: &str, out: &str) -> Report {
         let mut log: Vec<String> = vec![];
         match guard(|| build_ctlkeys(rng, enc, &mut log)) {
             Ok(h) => check_history(rng, &mut rep, &mut cw, ui, "ctlkeys", enc, &h, false, max_heads),
+            Err(_) => rep.count("generator_panics"),
+        }
+        ui += 1;
+    }
+    // ---------- the one-at-a-time delivery probe (anonymize used to panic on it)
+    for k in 0..(if thorough { 24 } else { 8 }) {
+        let enc = encs[k % 4];
+        let mut log: Vec<String> = vec![];
+        match guard(|| build_delivery_probe(rng, enc, &mut log)) {
+            Ok(h) => check_history(rng, &mut rep, &mut cw, ui, "delivery", enc, &h, k < 3, max_heads),
             Err(_) => rep.count("generator_panics"),
         }
         ui += 1;
